@@ -1,31 +1,55 @@
 import Driver.Bloom
+import Driver.Serde
+import Driver.Sync
+import Driver.Crdt
 /-
   amdriver: replays the `>` lines of a harness trace through the executable model and prints the
   model's `<` lines.  `#` lines are copied so the two streams stay aligned by case.
 -/
 open AmVerif
 
+/-- stateless engines: one line in, lines out -/
 def dispatch (toks : List String) : List String :=
   match toks with
   | [] => ["bad-input"]
   | cmd :: _ =>
     match (cmd.splitOn ".").head? with
     | some "bloom" => Driver.Bloom.exec toks
+    | some "serde" => Driver.Serde.exec toks
+    | some "sync" => Driver.Sync.exec toks
     | _ => ["unknown-engine"]
 
-partial def loop (h : IO.FS.Stream) (out : IO.FS.Stream) : IO Unit := do
+/-- per-case state of the stateful engines (reset at every `# case` line) -/
+structure DState where
+  crdt : Driver.Crdt.State := {}
+
+def step (st : DState) (toks : List String) : DState × List String :=
+  match toks with
+  | [] => (st, ["bad-input"])
+  | cmd :: _ =>
+    match (cmd.splitOn ".").head? with
+    | some "crdt" =>
+      let (c, out) := Driver.Crdt.exec st.crdt toks
+      ({ st with crdt := c }, out)
+    | _ => (st, dispatch toks)
+
+partial def loop (h : IO.FS.Stream) (out : IO.FS.Stream) (st : DState) : IO Unit := do
   let line ← h.getLine
   if line.isEmpty then return ()
   let line := (line.dropEndWhile (fun c => c == '\n' || c == '\r')).toString
   if line.startsWith "> " then
     out.putStrLn line
-    for l in dispatch (Wire.splitTokens (line.drop 2).toString) do
+    let (st', ls) := step st (Wire.splitTokens (line.drop 2).toString)
+    for l in ls do
       out.putStrLn ("< " ++ l)
+    loop h out st'
   else if line.startsWith "# case" then
     out.putStrLn line
-  loop h out
+    loop h out {}
+  else
+    loop h out st
 
 def main : IO Unit := do
   let stdin ← IO.getStdin
   let stdout ← IO.getStdout
-  loop stdin stdout
+  loop stdin stdout {}
